@@ -10,9 +10,9 @@ echo "== [$ID] confirm in $WT"
 T=$(timeout 900 /venv/bin/python -m pytest -q -p no:cacheprovider --timeout=900 --deselect dds_tests/test_sklearn.py::test_sklearn 2>&1 | tail -1)
 echo "tests with change: $T"
 timeout 600 /venv/bin/python demo.py > /tmp/demo_with.log 2>&1; W=$?
-git stash -q -- dds
+git apply -R patch.diff
 timeout 600 /venv/bin/python demo.py > /tmp/demo_without.log 2>&1; WO=$?
-git stash pop -q
+git apply patch.diff
 echo "demo exit with change: $W   without: $WO"
 cd /verif
 if ! git -C /repo apply --check "$WT/patch.diff" 2>/dev/null; then echo "patch does not apply to /repo"; exit 8; fi
